@@ -72,8 +72,12 @@ def hist_masters():
 
 def _ev_req(i):
     """distinct (application, parameter, index) prefixes"""
-    kinds = [("pwd", 20 + i // 3, 1), ("hex", 16 + i // 3, 0), ("mnemonic", (12, 15, 18, 21, 24)[(i // 3) % 5], i // 15)]
-    return list(kinds[i % 3])
+    # every i has a DIFFERENT path prefix (application + parameter): 67 password lengths, 49 byte counts, then word counts x index
+    if i % 2 == 0 and 20 + i // 2 <= 86:
+        return ["pwd", 20 + i // 2, 1]
+    if 16 + i // 2 <= 64:
+        return ["hex", 16 + i // 2, 0]
+    return ["mnemonic", (12, 15, 18, 21, 24)[i % 5], i]
 
 
 class OneObjectHistories:
